@@ -181,3 +181,17 @@ Fixpoint run_obs (st : state) (ops : list op) : list get_res * state :=
 Definition fresh_part (st : state) : list cmd := filter (fresh (seqs st)) (cache st).
 Definition effective_ready (st : state) : bool :=
   ready st && N.leb (batch_size st) (len (fresh_part st)).
+
+(* k successive Gets (each ending by cancellation if it blocks); the batches they return, in order.
+   Also describes k Gets that were already waiting when the state was reached: by the concurrent
+   semantics (BatchConc) their critical sections run one after the other. *)
+Fixpoint gets (k : nat) (st : state) : state * list (list cmd) :=
+  match k with
+  | O => (st, [])
+  | S k' => let '(st', r) := get st in
+            let '(st'', bs) := gets k' st' in
+            (st'', match r with GBatch b => b :: bs | _ => bs end)
+  end.
+
+(* containsDuplicate (test helper of cmdcache.go) *)
+Definition contains_dup (st : state) (b : list cmd) : bool := existsb (is_dup (seqs st)) b.
